@@ -155,8 +155,8 @@
   (local $l1 i32) (local $l2 i32) (local $l3 i32) (local $l4 i32) (local $l5 i32)
   (local.set $len (array.len (local.get $p0)))
   (block $B0
-    ;; check empty string
-    (block $B0 (br_if $B0 (local.get $len)))
+    ;; check empty string: the result is 0
+    (br_if $B0 (i32.eqz (local.get $len)))
     ;; if first character is -, then neg = 1
     (local.set $neg
       (i32.eq
